@@ -241,18 +241,40 @@ def lift_split(cls):
     return roles, defs[sens_name], defs[kept_name]
 
 
+def _dict_comp(node, what):
+    """{K: V for TARGET in ITER} -> Lean association list (entries in iteration order; later entries win on lookup)"""
+    if not (isinstance(node, ast.DictComp) and len(node.generators) == 1 and not node.generators[0].ifs):
+        _bad(f"{what}: not a simple dict comprehension: {_src(node)[:80]}")
+    g = node.generators[0]
+    it, tg = _src(g.iter), g.target
+    if it == "enumerate(X.columns)" and isinstance(tg, ast.Tuple) and len(tg.elts) == 2 and all(isinstance(e, ast.Name) for e in tg.elts):
+        src, names = "columns.zipIdx", {tg.elts[0].id: "p.2", tg.elts[1].id: "p.1"}      # (index, element) = (p.2, p.1)
+    elif it == "range(X.shape[1])" and isinstance(tg, ast.Name):
+        src, names = "((List.range m).map (fun i => (i, i)))", {tg.id: "p.1"}
+    else:
+        _bad(f"{what}: unknown iteration `{_src(g.target)} in {it}`")
+    k, v = _src(node.key), _src(node.value)
+    if k not in names or v not in names:
+        _bad(f"{what}: key / value `{k}: {v}` are not the loop variables")
+    return f"({src}.map (fun p => ({names[k]}, {names[v]})))"
+
+
 def lift_lookup(cls):
     fn = [f for f in cls.body if isinstance(f, ast.FunctionDef) and f.name == "_create_lookup"]
     if len(fn) != 1:
         _bad("_create_lookup not found")
     assigns = [n for n in ast.walk(fn[0]) if isinstance(n, ast.Assign) and _src(n.targets[0]) == "self.lookup_"]
-    srcs = sorted(_src(a.value) for a in assigns)
-    if srcs != ["{c: i for i, c in enumerate(X.columns)}", "{i: i for i in range(X.shape[1])}"]:
-        _bad(f"_create_lookup: lookup tables of unknown shape: {srcs}")
-    df = [n for n in ast.walk(fn[0]) if isinstance(n, ast.If) and _src(n.test) == "isinstance(X, pd.DataFrame)"]
-    if len(df) != 1 or not any(a in ast.walk(df[0].body[0]) or a is df[0].body[0] for a in assigns):
-        _bad("_create_lookup: the by-name table is not built under `if isinstance(X, pd.DataFrame)`")
-    return True
+    if len(assigns) != 2:
+        _bad(f"_create_lookup: expected two lookup tables (DataFrame / array), found {len(assigns)}")
+    df = [n for n in fn[0].body if isinstance(n, ast.If) and _src(n.test) == "isinstance(X, pd.DataFrame)"]
+    if len(df) != 1 or df[0].orelse:
+        _bad("_create_lookup: no `if isinstance(X, pd.DataFrame):` branch")
+    in_df = [a for a in assigns if any(a is n for n in ast.walk(df[0]))]
+    rest = [a for a in assigns if a not in in_df]
+    if len(in_df) != 1 or len(rest) != 1 or not isinstance(df[0].body[-1], ast.Return):
+        _bad("_create_lookup: the by-name table must be built (and returned from) under the DataFrame branch")
+    return (_dict_comp(in_df[0].value, "_create_lookup/DataFrame"), _src(in_df[0].value)), \
+           (_dict_comp(rest[0].value, "_create_lookup/array"), _src(rest[0].value))
 
 
 # ------------------------------------------------------------------------------------------- fit / transform
@@ -365,7 +387,7 @@ def corr_remover(repo):
         if need not in fns:
             _bad(f"method {need} not found")
     roles, sens_def, kept_def = lift_split(cls)
-    lift_lookup(cls)
+    lk_df, lk_arr = lift_lookup(cls)
     ft = lift_fit(fns["fit"], roles)
     tr = lift_transform(fns["transform"], roles)
     o = ["/-", f"GENERATED by harness/lifters/corr_remover.py from {REL}. Do not edit.",
@@ -383,6 +405,12 @@ def corr_remover(repo):
     d("transformMean", "", "MeanSrc", "." + tr["mean_src"], "centring vector of transform: " + tr["src_center"])
     d("transformCenter", "(s mean : Rat)", "Rat", tr["center"], tr["src_center"])
     d("outEntry", "(alpha use proj : Rat)", "Rat", tr["out"], "return " + tr["src_out"] + "   with PROJ = (centred sensitive).dot(self.beta_)")
+    o.extend(["/-- `dict[key]` for a dict built from `entries` in this order (a later entry with the same key wins) -/",
+              "def dictGet (entries : List (Nat × Nat)) (key : Nat) : Nat :=",
+              "  ((entries.reverse.find? (fun e => e.1 == key)).map (fun e => e.2)).getD 0", ""])
+    d("lookupDataFrame", "(columns : List Nat) (key : Nat)", "Nat", f"dictGet {lk_df[0]} key",
+      "DataFrame: self.lookup_ = " + lk_df[1] + "   (column names as code numbers)")
+    d("lookupArray", "(m : Nat) (key : Nat)", "Nat", f"dictGet {lk_arr[0]} key", "ndarray: self.lookup_ = " + lk_arr[1])
     d("sensitiveIdx", "(lookup : Nat → Nat) (ids : List Nat)", "List Nat", sens_def[0], sens_def[1])
     d("nonSensitiveIdx", "(m : Nat) (sensitive : List Nat)", "List Nat", kept_def[0], kept_def[1])
     o += ["end CorrRemoverSrc", ""]
